@@ -141,6 +141,9 @@ func genCase(t *rapid.T) Case {
 		c.Pieces = []gen.Piece{{Kind: "rand", Len: n, Seed: rapid.Uint64().Draw(t, "ws")}}
 		if nullAvg { // zero runs between data: every zero run is cut into chunks of min+1 bytes
 			z := int(c.Sizes.Max)*rapid.IntRange(1, 3).Draw(t, "nzk") + rapid.IntRange(0, 100).Draw(t, "nzd")
+			if lim := 3000 * (int(c.Sizes.Min) + 1); z > lim {
+				z = lim // every min+1 bytes of the run become a chunk: keep the chunk count in the thousands
+			}
 			c.Pieces = []gen.Piece{{Kind: "rand", Len: n / 4, Seed: rapid.Uint64().Draw(t, "ws1")}, {Kind: "zero", Len: z},
 				{Kind: "rand", Len: n / 4, Seed: rapid.Uint64().Draw(t, "ws2")}, {Kind: "zero", Len: z / 2}}
 		}
